@@ -67,6 +67,13 @@ func (c *Ctx) reachDecls(rule string, roots ...string) []*declInfo {
 			if o := f.Origin(); o != nil {
 				f = o
 			}
+			// a call through a module interface reaches every module implementation of the method
+			if sig, ok := f.Type().(*types.Signature); ok && sig.Recv() != nil && types.IsInterface(sig.Recv().Type()) {
+				for _, impl := range c.implementations(sig.Recv().Type(), f.Name()) {
+					visit(objName(impl), false)
+				}
+				continue
+			}
 			visit(objName(f), false)
 		}
 	}
@@ -304,4 +311,48 @@ func selectorField(pkg *packages.Package, e ast.Expr) *types.Var {
 		return si.Obj().(*types.Var)
 	}
 	return nil
+}
+
+// implementations lists the methods named `method` of the module's named types (and their pointer
+// types) that implement the interface type it.
+func (c *Ctx) implementations(it types.Type, method string) []*types.Func {
+	iface, ok := it.Underlying().(*types.Interface)
+	if !ok {
+		return nil
+	}
+	var out []*types.Func
+	var paths []string
+	for path := range c.P.Pkgs {
+		paths = append(paths, path)
+	}
+	sort.Strings(paths)
+	for _, path := range paths {
+		pk := c.P.Pkgs[path]
+		if pk.Types == nil || strings.Contains(path, "fakes") {
+			continue
+		}
+		sc := pk.Types.Scope()
+		for _, name := range sc.Names() {
+			tn, ok := sc.Lookup(name).(*types.TypeName)
+			if !ok || types.IsInterface(tn.Type()) {
+				continue
+			}
+			for _, t := range []types.Type{tn.Type(), types.NewPointer(tn.Type())} {
+				if !types.Implements(t, iface) {
+					continue
+				}
+				obj, _, _ := types.LookupFieldOrMethod(t, true, pk.Types, method)
+				if fn, ok := obj.(*types.Func); ok {
+					dup := false
+					for _, o := range out {
+						dup = dup || o == fn
+					}
+					if !dup {
+						out = append(out, fn)
+					}
+				}
+			}
+		}
+	}
+	return out
 }
